@@ -1728,6 +1728,40 @@ func (e *c20Engine) Simplify(t *kit.Trace) []*kit.Trace {
 			}
 		}
 	}
+	// unused set-up: transactions no operation refers to, pre-insertions
+	if t.Cfg("kind", 0) == kindLin {
+		txNo := -1
+		for j, o := range t.Setup {
+			switch o.K {
+			case "tx":
+				txNo++
+				used := false
+				for _, cl := range t.Clients {
+					for _, op := range cl {
+						if op.K == "mtx" && op.H == txNo {
+							used = true
+						}
+					}
+				}
+				if !used {
+					c := t.Clone()
+					c.Setup = append(c.Setup[:j:j], c.Setup[j+1:]...)
+					for ci := range c.Clients {
+						for oi := range c.Clients[ci] {
+							if c.Clients[ci][oi].K == "mtx" && c.Clients[ci][oi].H > txNo {
+								c.Clients[ci][oi].H--
+							}
+						}
+					}
+					out = append(out, c)
+				}
+			case "preadd", "bymsg":
+				c := t.Clone()
+				c.Setup = append(c.Setup[:j:j], c.Setup[j+1:]...)
+				out = append(out, c)
+			}
+		}
+	}
 	for i := range t.Sites {
 		if len(t.Sites) > 1 {
 			c := t.Clone()
